@@ -40,7 +40,7 @@ Cat(ss) == FoldLeft(LAMBDA a, b : a \o b, <<>>, ss)
 
 (* ---- family "flat": one directory, every slot independently ------------ *)
 NodeChoices  == {"absent", "c0", "c1", "c2", "dir", "other"}
-EntryChoices == {"none", "d0", "d0x", "d1", "d2", "ign", "dupok", "dupbad", "duptype"}
+EntryChoices == {"none", "d0", "d0x", "d1", "d2", "ign", "dupok", "dupbad", "dupbadx", "duptype"}
 
 FlatNodes(asg) ==
     Cat([ i \in 1..Len(asg) |->
@@ -63,6 +63,10 @@ FlatEntries(asg) ==
                                 En("EBUILD", <<n>>, 3, << <<"MD5", "c0">> >>) >>
           [] c = "dupbad" -> << En("DATA", <<n>>, 3, << <<"SHA1", "c0">> >>),
                                 En("DATA", <<n>>, 3, << <<"SHA1", "c1">> >>) >>
+          [] c = "dupbadx" -> \* conflict on one shared hash, a later-sorted hash in one entry only
+                             << En("DATA", <<n>>, 3, << <<"MD5", "c1">>, <<"SHA1", "c0">> >>),
+                                En("DATA", <<n>>, 3, << <<"MD5", "c0">>, <<"SHA1", "c0">>,
+                                                        <<"SHA512", "c0">> >>) >>
           [] c = "duptype" -> << En("DATA", <<n>>, 3, << <<"SHA1", "c0">> >>),
                                  En("MISC", <<n>>, 3, << <<"SHA1", "c0">> >>) >> ])
 
